@@ -61,7 +61,7 @@ impl Command for Emit {
     }
 }
 
-/// harness command `inc n`: decimal successor (error for anything that is not a plain decimal)
+/// harness command `inc n`: decimal successor ("1" for anything that is not a plain decimal)
 #[derive(Clone)]
 pub struct Inc;
 fn plain_decimal(s: &str) -> Option<u128> {
@@ -74,7 +74,7 @@ impl Command for Inc {
         if ctx.arguments.len() != 1 { return CommandResult::Error("inc".into()); }
         match plain_decimal(&ctx.arguments[0]) {
             Some(n) => CommandResult::Continue(Some((n + 1).to_string())),
-            None => CommandResult::Error("inc".into()),
+            None => CommandResult::Continue(Some("1".to_string())),
         }
     }
 }
@@ -89,7 +89,7 @@ impl Command for Lt {
         if ctx.arguments.len() != 2 { return CommandResult::Error("lt".into()); }
         match (plain_decimal(&ctx.arguments[0]), plain_decimal(&ctx.arguments[1])) {
             (Some(a), Some(b)) => CommandResult::Continue(Some((a < b).to_string())),
-            _ => CommandResult::Error("lt".into()),
+            _ => CommandResult::Continue(Some("false".to_string())),
         }
     }
 }
